@@ -345,6 +345,15 @@ def run(ctx):
                          "position": pos, "differing_files": d[:10], "exception": exc, "env": env, "cwd": cwd})
 
         jobs = []
+        # leak-directed: every probe pair on which the classification found a registry carrying state of the earlier run into
+        # the later one is byte-compared first (the classification says where to look, the comparison shows the bytes)
+        for a_it, b_it in info.get("leak_pairs", []):
+            for it in (a_it, b_it):
+                it.setdefault("label", it.get("corpus") or os.path.basename(it.get("yaml", "?")))
+                if label(it) not in alone:
+                    ex1, tr1 = run_seq([strip(it)])
+                    alone[label(it)] = (ex1[0], tr1[0])
+            jobs.append(([a_it, b_it], None, None, "seq"))
         pairs = list(itertools.permutations(items, 2))
         if not thorough:
             # all ordered pairs over the quick libraries is 240+: take every pair that mixes languages/wrappers plus a sample
